@@ -58,6 +58,8 @@ pub fn submitted_id(op: &Op) -> Option<u32> {
 pub struct X {
     /// number of leading ops per client that are submissions (the rest is the epilogue)
     pub nsub: Vec<usize>,
+    /// id of the message whose handler is abandoned by the configured timeout (if any)
+    pub abandoned: Option<u32>,
 }
 
 pub fn oracle(s: &ProgScene<X>, t: &Trace) -> Vec<Violation> {
@@ -70,7 +72,8 @@ pub fn oracle(s: &ProgScene<X>, t: &Trace) -> Vec<Violation> {
         match e.ev {
             crate::world::Ev::Enter { a: 0, cb, .. } => {
                 crate::check::oblige("handlers-sequential");
-                if let Some(o) = open {
+                // (a handler abandoned by the timeout never logs its exit; it is over by then)
+                if let Some(o) = open.filter(|o| Some(*o) != s.extra.abandoned.map(Cb::Msg)) {
                     out.push(Violation {
                         clause: "handlers-sequential",
                         key: format!("C01/overlap/mailbox={mb}"),
@@ -200,6 +203,12 @@ pub fn oracle(s: &ProgScene<X>, t: &Trace) -> Vec<Violation> {
 }
 
 pub fn make_case(progs: &[Vec<L>], mailbox: Mailbox, yields: u8, bound: Option<u32>) -> Case {
+    make_case_t(progs, mailbox, yields, bound, None)
+}
+
+/// `slow`: a handler timeout of 2 ticks (carry on) is configured and the message with this
+/// index of client 0 needs 5 ticks - it is abandoned, everything else must be unaffected
+pub fn make_case_t(progs: &[Vec<L>], mailbox: Mailbox, yields: u8, bound: Option<u32>, slow: Option<usize>) -> Case {
     let mut clients = vec![];
     let mut nsub = vec![];
     for (c, p) in progs.iter().enumerate() {
@@ -213,18 +222,28 @@ pub fn make_case(progs: &[Vec<L>], mailbox: Mailbox, yields: u8, bound: Option<u
         }
         clients.push(ClientSpec { init, ops });
     }
-    let role = RoleCfg { default_work: Work { yields, ..Work::default() }, ..RoleCfg::default() };
+    let mut role = RoleCfg { default_work: Work { yields, ..Work::default() }, ..RoleCfg::default() };
+    let mut spawn = SpawnCfg::plain(mailbox);
+    if let Some(k) = slow {
+        role.work.push((msg_id(0, k), Work { sleep: 5, ..Work::default() }));
+        spawn.timeout = Some((2, false));
+        // the owner waits long enough for the abandoned handler's slot to pass
+        if let Some(Op::Sleep(t)) = clients[0].ops.iter_mut().find(|o| matches!(o, Op::Sleep(_))) {
+            *t = 9;
+        }
+    }
     let desc = format!(
-        "fifo mailbox={} yields={} progs={}",
+        "fifo mailbox={} yields={} slow={:?} progs={}",
         mailbox.name(),
         yields,
+        slow,
         progs.iter().map(|p| p.iter().map(|l| format!("{l:?}")).collect::<Vec<_>>().join(",")).collect::<Vec<_>>().join(" | ")
     );
     Case {
         desc,
         exec: ExecCfg::default(),
         bound,
-        scene: Box::new(ProgScene { attach: crate::progscene::Attach::None, spawn: SpawnCfg::plain(mailbox), roles: vec![role], clients, extra: X { nsub }, oracle }),
+        scene: Box::new(ProgScene { attach: crate::progscene::Attach::None, spawn, roles: vec![role], clients, extra: X { nsub, abandoned: slow.map(|k| msg_id(0, k)) }, oracle }),
     }
 }
 
@@ -273,6 +292,21 @@ fn cases(tier: Tier) -> Vec<Case> {
                         }
                     }
                 }
+            }
+        }
+    }
+    // a handler timeout (carry on) abandons one slow message: the others keep their order and
+    // none of them is lost
+    let talpha = [L::SendAddr, L::SendSnd, L::CallAddr, L::CallCal, L::ForceWSnd];
+    for &mb in &mailboxes {
+        for p in seqs(&talpha, 3) {
+            for slow in 0..2 {
+                v.push(make_case_t(&[p.clone()], mb, 0, None, Some(slow)));
+            }
+        }
+        for a in seqs(&talpha, 2) {
+            for b in seqs(&talpha, 1) {
+                v.push(make_case_t(&[a.clone(), b], mb, 0, None, Some(0)));
             }
         }
     }
@@ -326,6 +360,7 @@ pub fn property() -> Property {
         id: "C01",
         cases,
         clauses: &["handlers-sequential", "at-most-once", "fifo-order", "state-is-fold"],
+        full_rerun_check: true,
         assumptions: &["the final state is obtained by the owner: after a virtual tick (everything submitted has been accepted) it calls consume(), i.e. stop + join"],
     }
 }
